@@ -536,6 +536,19 @@ def conv_session(v: Verdict, name: str, flags: dict, n_worlds: int, profile: dic
                             oracle_c04(v, w, get_conv, cfg, forbid, t, o, sres, S.hist)
                 if "C06" in oracles:
                     oracle_c06_unstruct(v, w, t, x, outs)
+                if "C03" in oracles:
+                    # the same value through a Converter that omits default-valued attributes (oracle only)
+                    dvo = rng.random() < 0.5
+                    if ("omit", dvo) not in pool:
+                        from cattrs import Converter as _Conv
+                        pool[("omit", dvo)] = _Conv(detailed_validation=dvo, omit_if_default=True)
+                    try:
+                        ores = L.run_unstructure(pool[("omit", dvo)], w, x, t)
+                    except RecursionError:
+                        ores = None
+                    if ores is not None and ores[0] == "ok":
+                        S.hist["unstructure_omit_if_default"] = S.hist.get("unstructure_omit_if_default", 0) + 1
+                        oracle_c03_omit(v, w, dvo, t, x, ores[1])
         S.close_world(w, tables, cases)
     if not with_model:
         return S
@@ -605,6 +618,73 @@ def oracle_c02(v, w, conv, cfg, forbid, t, o, sres):
         v.finding("F27", "tuple strategy: values shifted onto the wrong attributes past a kw_only / init=False attribute", rp(w, cfg, forbid, t, o, sres, "C02"))
     elif bad:
         v.violation("structure silently dropped, defaulted or passed through an invalid component: " + bad, rp(w, cfg, forbid, t, o, sres, "C02"))
+
+
+def omit_matches(w: World, t, x, u, want) -> str:
+    """Converter(omit_if_default=True): the output is the documented encoding `want` minus attributes that hold their default;
+    returns a description of the first deviation, or ''"""
+    k = t[0] if t is not None else "any"
+    if k in ("newtype",):
+        return omit_matches(w, t[2], x, u, want)
+    if k in ("annot", "opt"):
+        return "" if x is None and u is None else omit_matches(w, t[1], x, u, want)
+    if k in ("class", "self") and type(u) is dict and type(want) is dict:
+        spec = w.specs[t[1]]
+        if spec.kind == "td":
+            return "" if deep_same(u, want) else "TypedDict position differs"
+        for key in u:
+            if key not in want:
+                return f"unexpected key {key!r}"
+        for f in spec.fields:
+            if f.name not in want:
+                continue
+            if f.name in u:
+                bad = omit_matches(w, f.type, getattr(x, f.name), u[f.name], want[f.name])
+                if bad:
+                    return f".{f.name}: {bad}"
+            elif f.default is NODEFAULT or not (getattr(x, f.name) == f.default):
+                return f".{f.name} is missing although it does not hold its default"
+        return ""
+    if k in ("list", "tuphom") and type(u) is list and type(want) is list and len(u) == len(want) == len(x):
+        for i, (xe, ue, we) in enumerate(zip(x, u, want)):
+            bad = omit_matches(w, t[1], xe, ue, we)
+            if bad:
+                return f"[{i}]{bad}"
+        return ""
+    if k == "tuple" and type(u) is tuple and type(want) is tuple and len(u) == len(want) == len(x):
+        for i, (tt, xe, ue, we) in enumerate(zip(t[1], x, u, want)):
+            bad = omit_matches(w, tt, xe, ue, we)
+            if bad:
+                return f"[{i}]{bad}"
+        return ""
+    if k == "dict" and type(u) is dict and type(want) is dict and t[1][0] in ("prim", "lit") and set(u) == set(want):
+        for kk in x:
+            bad = omit_matches(w, t[2], x[kk], u[kk], want[kk])
+            if bad:
+                return f"[{kk!r}]{bad}"
+        return ""
+    if k in ("any", "set", "fset", "dict") or t is None:
+        # positions encoded by runtime class, unordered containers and non-trivially keyed mappings: primitives only (the elements' own
+        # omissions cannot be lined up); exact equality is checked by the non-omitting configurations
+        return "" if primitive_only(u) else "non-primitive object"
+    return "" if deep_same(u, want) else f"{u!r} instead of {want!r}"
+
+
+def oracle_c03_omit(v, w, dv, t, x, u):
+    if not conforms_py(w, x, t) or w._mentions_td(t) or class_as_key(w, t):
+        return            # (a class used as a mapping key has no dict-strategy encoding: a dict is not hashable)
+    if not primitive_only(u):
+        v.violation("unstructured output contains a non-primitive object (omit_if_default=True)", rp(w, (True, dv, "dict"), False, t, x, ("ok", u, None), "C03"))
+        return
+    try:
+        want = encode_py(w, True, "dict", t, x)
+        bad = omit_matches(w, t, x, u, want)
+    except Exception as e:
+        v.violation(f"oracle omit_matches failed: {e!r}", rp(w, (True, dv, "dict"), False, t, x, ("ok", u, None), "C03"))
+        return
+    if bad:
+        v.violation("with omit_if_default=True the output is not the documented encoding minus default-valued attributes: " + bad,
+                    rp(w, (True, dv, "dict"), False, t, x, ("ok", u, None), "C03", documented=repr(want)[:600]))
 
 
 def oracle_c03(v, w, cfg, t, x, u):
